@@ -16,11 +16,11 @@ CLAIMS = {
             "in replayed and step-driven runs workers are executed in-process in the order the driver chooses; engine exclusivity is that of the instances handed out by the main process",
             "DESIGN.md 5/C03"),
     "C04": ("model_checking",
-            "Infretis.tla with exact rational fractional weights model-checked for the accounting identity and write-once rows; every Complete event of replayed behaviours, recorded step-driven runs and recorded histories of the unmodified scheduler with a real process pool and the real TurtleMD engine (8 ensembles, wire-fencing weights, several workers, SIGKILL and continuation) is checked by TLC for unit credit per idle column, zero on busy rows/columns, support, rows and restart-file contents.",
+            "Infretis.tla with exact rational fractional weights model-checked for the accounting identity and write-once rows; every Complete event of replayed behaviours, recorded step-driven runs and recorded histories of the unmodified scheduler with a real process pool and the real TurtleMD engine (8 ensembles, wire-fencing weights, several workers, SIGKILL and continuation) is checked by TLC for unit credit per idle column, zero on busy rows/columns, support, rows and restart-file contents. Across restarts: the main process is killed at every file-system effect on the data file and the restart file (before, empty, half written, after), restarted and driven to the end; the recorded effects are applied to the Crash.tla disk by TraceCrash.tla (rows written once, never for a live path, none kept beyond the restart file) and the recorded events judged by the credit / record clauses of TraceInfretis.tla.",
             "floats cross the boundary as micro-units and, per step, as exact numerators over perm(W_idle)",
             "DESIGN.md 5/C04"),
     "C05": ("model_checking",
-            "Infretis.tla model-checked for CanDraw / NotStuck / sorted idle slots / fresh numbers / loadable restart records (also from varied initial paths and with kills); behaviours with kills and restarts replayed on the real code, real runs with sh and wf moves recorded, all validated by the trace specification; any exception of the main process is a stall.",
+            "Infretis.tla model-checked for CanDraw / NotStuck / sorted idle slots / fresh numbers / loadable restart records (also from varied initial paths and with kills); behaviours with kills and restarts replayed on the real code, real runs with sh and wf moves recorded, all validated by the trace specification; any exception of the main process is a stall. SortCases.tla enumerates the states in which sort_trajstate is called the way the sampler builds them (sorted arrangement, up to K picks admitted by the matching condition of P, one completion, weights 1 / 2, five ensembles) and every case runs through the real sort_trajstate under a swap counter.",
             "termination of sort_trajstate is observed under a watchdog on every explored state, not proved for all N",
             "DESIGN.md 5/C05"),
     "C06": ("model_checking",
